@@ -247,6 +247,7 @@ func (workingMem *WorkingMemory) IndexVariables() {
 	workingMem.expressionVariableMap = make(map[*Variable][]*Expression)
 	workingMem.expressionAtomVariableMap = make(map[*Variable][]*ExpressionAtom)
 
+	{ workingMem := simWMView(workingMem) // verif hook: identity unless built with -tags verif
 	for varSnapshot, variable := range workingMem.variableSnapshotMap {
 		if _, ok := workingMem.expressionVariableMap[variable]; ok == false {
 			workingMem.expressionVariableMap[variable] = make([]*Expression, 0)
@@ -266,6 +267,7 @@ func (workingMem *WorkingMemory) IndexVariables() {
 			}
 		}
 	}
+	} // verif hook: end of block opened above
 
 	workingMem.DebugContent()
 
